@@ -9,7 +9,8 @@ Line-protocol driver for C10 (see harness/cmd/vh/c10.go for the grammar).
     -> <ok hex | PANIC | UNMODELLED> C=<conf> X=<exact fixed rendering | -> T=<fields = C19 civilOf of the instant> A=<AM/PM patterns in the regenerated table>
   comma <text>      -> printCommaSep
   bcode <culture> <short> <longtime> <id>   -> getBuiltInNumFmtCode (hook): ok <code> | none
-  glue <styled> <id> <culture> <short> <longtime> <code|none> fmt …  GetCellValue through NewStyle{NumFmt:id}:
+  norm <raw> <isNum> <prec> <fltbits> <short>   -> GetCellValue of an unstyled cell (getValueFrom's normalisation)
+  glue <styled> <id> <culture> <short> <longtime> <code|none> <k> {<id> <code>} <raw> <isNum> <prec> <fltbits> <short> fmt …  GetCellValue through NewStyle{NumFmt:id}:
         the fmt fields for the code the harness expects + R=<formattedValue's resolution in the model equals it>
 All strings hex ("-" = empty).
 -/
@@ -190,12 +191,43 @@ def step (w : List String) : String :=
       | some c => "ok " ++ hexS c
       | none => "none"
     | _, _, _, _ => "bad-op"
-  | "glue" :: styled :: id :: cu :: sh :: lt :: code :: "fmt" :: rest =>
-    match id.toNat?, cu.toNat?, unhexS sh, unhexS lt, (if code = "none" then some none else (unhexS code).map some), fmtOp rest with
-    | some id, some cu, some sh, some lt, some code, some (r, []) =>
-      let got := Glue.resolve [] (if styled = "1" then 1 else 0) id { culture := cu, short := sh, longTime := lt }
-      r ++ " R=" ++ b01 (decide (got = code))
-    | _, _, _, _, _, _ => "bad-op"
+  | "glue" :: styled :: id :: cu :: sh :: lt :: code :: nc :: more =>
+    let r : Option String := do
+      let id ← id.toNat?
+      let cu ← cu.toNat?
+      let sh ← unhexS sh
+      let lt ← unhexS lt
+      let code : Option Str ← (if code = "none" then some none else (unhexS code).map some)
+      let nc ← nc.toNat?
+      -- customs
+      let rec takeCustoms : Nat → List String → Option (List (Nat × Str) × List String)
+        | 0, ws => some ([], ws)
+        | k + 1, i :: c :: ws => do
+          let i ← i.toNat?
+          let c ← unhexS c
+          let (cs, ws) ← takeCustoms k ws
+          pure ((i, c) :: cs, ws)
+        | _, _ => none
+      let (customs, more) ← takeCustoms nc more
+      match more with
+      | raw :: isNum :: prec :: bits :: short :: "fmt" :: rest =>
+        let raw ← unhexS raw
+        let prec ← prec.toNat?
+        let flt ← (hexBits bits).map Float.ofBits
+        let short ← unhexS short
+        let (out, rem) ← fmtOp rest
+        if rem ≠ [] then none else
+        let value ← (rest[1]?).bind unhexS
+        let got := Glue.resolve customs (if styled = "1" then 1 else 0) id { culture := cu, short := sh, longTime := lt }
+        let nv := Glue.normalize (isNum = "1") prec short (F64.fmtG (Glue.lit Facts.C10.getValueFromInts 4) flt) raw
+        pure (out ++ " R=" ++ b01 (decide (got = code)) ++ " N=" ++ b01 (decide (nv = value)))
+      | _ => none
+    r.getD "bad-op"
+  | ["norm", raw, isNum, prec, bits, short] =>
+    match unhexS raw, prec.toNat?, hexBits bits, unhexS short with
+    | some raw, some prec, some b, some short =>
+      "ok " ++ hexS (Glue.normalize (isNum = "1") prec short (F64.fmtG (Glue.lit Facts.C10.getValueFromInts 4) (Float.ofBits b)) raw)
+    | _, _, _, _ => "bad-op"
   | ["comma", h] =>
     match unhexS h with
     | some s => "ok " ++ hexS (printCommaSep s)
